@@ -1635,6 +1635,27 @@ def rw_zip_to_index(func, k):
     return True
 
 
+_OPERATOR_FUNCS = {'add': ast.Add, 'sub': ast.Sub, 'mul': ast.Mult, 'truediv': ast.Div, 'floordiv': ast.FloorDiv, 'mod': ast.Mod, 'pow': ast.Pow, 'matmul': ast.MatMult}
+
+
+def rw_operator_call(func, k):
+    """operator.add(a, b)   ->   a + b        (the functions of the standard module `operator` ARE the operators; same operand order)"""
+    sites = [n for n in ast.walk(func) if isinstance(n, ast.Call) and isinstance(n.func, ast.Attribute) and isinstance(n.func.value, ast.Name) and n.func.value.id == 'operator'
+             and (n.func.attr in _OPERATOR_FUNCS and len(n.args) == 2 or n.func.attr == 'neg' and len(n.args) == 1) and not n.keywords
+             and not any(isinstance(a_, ast.Starred) for a_ in n.args)]
+    if any(isinstance(w, ast.Name) and w.id == 'operator' and isinstance(w.ctx, ast.Store) for w in ast.walk(func)) or any(isinstance(w, ast.arg) and w.arg == 'operator' for w in ast.walk(func)):
+        sites = []      # a local of that name is not the module
+    if k >= len(sites):
+        return False
+    n = sites[k]
+    if n.func.attr == 'neg':
+        new = ast.UnaryOp(op=ast.USub(), operand=n.args[0])
+    else:
+        new = ast.BinOp(left=n.args[0], op=_OPERATOR_FUNCS[n.func.attr](), right=n.args[1])
+    replace_node(func, n, fix(new, n))
+    return True
+
+
 def rw_zip_mapped(func, k):
     """for a, b in zip(S, [E(v) for v in S]): B      ->      for a in S: B[b := E(a)]
     (S and E pure; b is read only; nothing E reads is stored or mutated in B - the values E(a) are then the ones the list held)"""
@@ -3405,7 +3426,7 @@ def rw_inline_helper(func, k):
     return True
 
 
-GUIDED = [rw_zip_collected, rw_zip_mapped, rw_zip_to_index, rw_inline_helper, rw_extract_temp, rw_flatten_comp_filter, rw_first_of_concat, rw_split_tuple_assign, rw_augcomp_to_loop, rw_len_zero, rw_bool_ifexp, rw_singleton_comp, rw_ndenumerate_value, rw_flat_to_ndenumerate, rw_slice_zero, rw_flip_compare, rw_keyword_to_positional, rw_fstring_to_percent, rw_np_all_any, rw_range_min_guard, rw_membership_container, rw_drop_default_arg, rw_unpack_first, rw_use_alias, rw_ravel_flatten, rw_last_appended, rw_pass_branch, rw_dictcomp_to_loop, rw_none_flag, rw_argcomp_to_loop, rw_hoist_return, rw_get_none, rw_else_after_exit_wrap, rw_else_after_exit_unwrap, rw_comp_to_loop, rw_loop_to_comp, rw_not_compare, rw_demorgan, rw_swap_branches, rw_merge_nested_if, rw_split_and_if, rw_guard_to_swapped_else, rw_swapped_else_to_guard, rw_drop_tail_return, rw_add_tail_return, rw_element_to_index_loop, rw_fuse_loops, rw_late_publication, rw_drop_tail_continue, rw_items_loop, rw_filter_loop, rw_loop_to_update, rw_is_false, rw_hoist_common_tail, rw_sink_common_tail, rw_try_tail_out, rw_try_tail_in, rw_genexp_loop, rw_guarded_subscript_get, rw_update_to_loop, rw_star_list, rw_filter_none, rw_extend_literal, rw_unpack_name, rw_tolist_index, rw_fuse_nested_comp, rw_split_elif_after_exit, rw_join_elif_after_exit, rw_np_synonym, rw_append_augadd, rw_list_call_to_comp, rw_last_is_appended, rw_move_append, rw_append_comp_to_loop, rw_split_append_concat, rw_enumerate_to_index, rw_subscripted_literal, rw_extend_to_loop, rw_comp_over_collected, rw_tail_pass_to_continue, rw_split_or_exit, rw_merge_exit_ifs, rw_unroll_const_loop, rw_drop_noop_pass, rw_ifexp_to_if, rw_if_to_ifexp, rw_bool_to_if, rw_kwargs_default, rw_trailing_return, rw_enumerate, rw_return_temp]
+GUIDED = [rw_zip_collected, rw_zip_mapped, rw_operator_call, rw_zip_to_index, rw_inline_helper, rw_extract_temp, rw_flatten_comp_filter, rw_first_of_concat, rw_split_tuple_assign, rw_augcomp_to_loop, rw_len_zero, rw_bool_ifexp, rw_singleton_comp, rw_ndenumerate_value, rw_flat_to_ndenumerate, rw_slice_zero, rw_flip_compare, rw_keyword_to_positional, rw_fstring_to_percent, rw_np_all_any, rw_range_min_guard, rw_membership_container, rw_drop_default_arg, rw_unpack_first, rw_use_alias, rw_ravel_flatten, rw_last_appended, rw_pass_branch, rw_dictcomp_to_loop, rw_none_flag, rw_argcomp_to_loop, rw_hoist_return, rw_get_none, rw_else_after_exit_wrap, rw_else_after_exit_unwrap, rw_comp_to_loop, rw_loop_to_comp, rw_not_compare, rw_demorgan, rw_swap_branches, rw_merge_nested_if, rw_split_and_if, rw_guard_to_swapped_else, rw_swapped_else_to_guard, rw_drop_tail_return, rw_add_tail_return, rw_element_to_index_loop, rw_fuse_loops, rw_late_publication, rw_drop_tail_continue, rw_items_loop, rw_filter_loop, rw_loop_to_update, rw_is_false, rw_hoist_common_tail, rw_sink_common_tail, rw_try_tail_out, rw_try_tail_in, rw_genexp_loop, rw_guarded_subscript_get, rw_update_to_loop, rw_star_list, rw_filter_none, rw_extend_literal, rw_unpack_name, rw_tolist_index, rw_fuse_nested_comp, rw_split_elif_after_exit, rw_join_elif_after_exit, rw_np_synonym, rw_append_augadd, rw_list_call_to_comp, rw_last_is_appended, rw_move_append, rw_append_comp_to_loop, rw_split_append_concat, rw_enumerate_to_index, rw_subscripted_literal, rw_extend_to_loop, rw_comp_over_collected, rw_tail_pass_to_continue, rw_split_or_exit, rw_merge_exit_ifs, rw_unroll_const_loop, rw_drop_noop_pass, rw_ifexp_to_if, rw_if_to_ifexp, rw_bool_to_if, rw_kwargs_default, rw_trailing_return, rw_enumerate, rw_return_temp]
 
 
 def _clone(node):
